@@ -358,7 +358,9 @@ def validator_configs(ctx):
     if P not in f.fns:
         return [], ["anchor not found: %s" % P]
     pref = (V + "RdhCruSanityValidator::<T>::", "<" + V + "RdhCruSanityValidator<T> as")
-    b = Body(inline_fn(f, P, lambda c: c.startswith(pref), max_depth=4))
+    # constructor helpers of the RDH0 validator are inlined too (everything but `new`, which is the recorded event)
+    pref0 = (V + "Rdh0Validator::", "<" + V + "Rdh0Validator as")
+    b = Body(inline_fn(f, P, lambda c: c.startswith(pref) or (c.startswith(pref0) and not c.endswith("Rdh0Validator::new") and not c.endswith("::sanity_check")), max_depth=4))
     rets = set(b.return_blocks())
     problems = []
 
@@ -384,6 +386,11 @@ def validator_configs(ctx):
                     evs.append(("system_id", opt(b.origin(st["rv"]["op"])) if st["rv"]["k"] == "use" else "?"))
                 elif names[-2:] == ["rdh0_validator", "header_id"]:
                     evs.append(("header_id", opt(b.origin(st["rv"]["op"])) if st["rv"]["k"] == "use" else "?"))
+                elif names[-1:] == ["rdh0_validator"] and st["rv"]["k"] == "use":
+                    # the whole RDH0 validator is replaced: fine when the value is a recorded construction, unknown otherwise
+                    so_ = show_origin(b.origin(st["rv"]["op"]))
+                    if "Rdh0Validator::new(" not in so_ and "Rdh0Validator as core::default::Default>::default(" not in so_ and "Rdh0Validator{" not in so_:
+                        evs.append(("new", "?(%s)" % so_[:60], "?(%s)" % so_[:60]))
         t = b.blocks[x]["t"]
         if t["k"] == "call":
             cal = callee_of(t)[0] or ""
